@@ -20,6 +20,7 @@
 -/
 import SpqProofs.Properties.C14
 import SpqProofs.Lemmas.ConvSel
+import Gen.Dispatch
 
 namespace Spq.C14
 open Spq Spq.F64 Spq.Conv
@@ -109,5 +110,41 @@ example : ∃ r, (toZnx64 .bnd50 8 (pow2 3) (Array.replicate 16 4845873199050653
     (Array.replicate 16 4845873199050653695) 1 (by norm_num) (by decide +kernel) (by decide +kernel)
     (by unfold MagLt; decide +kernel)
   simpa using h
+
+
+/-! ### the constructor model against the LIVE library (regenerated dispatch facts) -/
+
+/-- the kernel a variant stands for -/
+def variantKernel : ToZnx64Variant → String
+  | .ref => "reim_to_znx64_ref"
+  | .bnd50 => "reim_to_znx64_avx2_bnd50_fma"
+  | .bnd63 => "reim_to_znx64_avx2_bnd63_fma"
+
+/-- is AVX2 available under CPU mask `i` of `Gen.Dispatch` (masks = disable (avx2, fma, avx512):
+    (0,0,0), (1,1,1), (1,0,0), (0,1,0), (0,0,1)) -/
+def avx2UnderMask : Nat → Bool
+  | 1 => false
+  | 2 => false
+  | _ => true
+
+/-- the `log2bound` values at which `tools/gen_dispatch.py` calls `new_reim_to_znx64_precomp` -/
+def toZnx64Bounds : List (String × Nat) :=
+  [("new_reim_to_znx64_precomp/50", 50), ("new_reim_to_znx64_precomp/51", 51),
+   ("new_reim_to_znx64_precomp/52", 52), ("new_reim_to_znx64_precomp/63", 63)]
+
+/-- Gen obligation: for every bound in {50, 51, 52, 63}, every CPU mask and every dimension `m = 2^0 .. 2^16`, the kernel
+    that the LIVE library's `new_reim_to_znx64_precomp` installed (read back from the object on this run) is the one the
+    model of the constructor `Conv.initToZnx64` selects — so `to_znx64_selection` / `to_znx64_dispatch` are about the
+    constructor the library runs (in particular the 50/51 threshold), not only about a hand-typed copy of it.
+    The second conjunct is the non-vacuity floor: all four bounds occur with both an AVX and a reference row. -/
+theorem to_znx64_constructor_matches_library :
+    (toZnx64Bounds.all fun nb =>
+      (Gen.Dispatch.rows.filter fun r => r.1 == nb.1).all fun r =>
+        r.2.2.2.all fun lg =>
+          (initToZnx64 (2 ^ lg) D_ONE nb.2 (avx2UnderMask r.2.1)).map variantKernel == some r.2.2.1) = true ∧
+    (toZnx64Bounds.all fun nb =>
+      (Gen.Dispatch.rows.any fun r => r.1 == nb.1 && r.2.2.1 == "reim_to_znx64_ref") &&
+      (Gen.Dispatch.rows.any fun r => r.1 == nb.1 && r.2.2.1 != "reim_to_znx64_ref" && r.2.2.2.length ≥ 14)) = true := by
+  decide +kernel
 
 end Spq.C14
